@@ -216,6 +216,12 @@ class OrthoXMLParser(object):
                     else:
                         ancestral_genome = self.ham_object._get_ancestral_genome_by_mrca_of_hog_children_genomes(hog)
 
+                    # a group is never placed below the level of a duplication it contains
+                    for child in hog.children:
+                        dupl = child.arose_by_duplication
+                        if dupl != False and dupl.MRCA.taxon.depth < ancestral_genome.taxon.depth:
+                            ancestral_genome = dupl.MRCA
+
                     hog.set_genome(ancestral_genome)
                     ancestral_genome.taxon.genome.add_gene(hog)
 
